@@ -861,7 +861,8 @@ Stylesheet::addTemplate(
                         tempString,
                         *xp,
                         xp->getExpression().getCurrentPattern(),
-                        data[i].getDefaultPriority());
+                        data[i].getDefaultPriority(),
+                        i);
 
                 ++m_patternCount;
 
@@ -1207,8 +1208,15 @@ Stylesheet::findTemplate(
                 {
                     const XPath* const  xpath = matchPat->getExpression();
 
+                    // The entry stands for one alternative of the pattern
+                    // (a template whose pattern is a union is a set of
+                    // template rules), so only that alternative counts.
                     XPath::eMatchScore  score =
-                                xpath->getMatchScore(targetNode, *this, executionContext);
+                                xpath->getMatchScore(
+                                    targetNode,
+                                    *this,
+                                    executionContext,
+                                    matchPat->getAlternative());
 
                     if(XPath::eMatchScoreNone != score)
                     {
@@ -1287,6 +1295,7 @@ Stylesheet::findTemplate(
                         if(!patterns->empty() &&
                            !(prevMatchPat != 0 &&
                              (prevPat != 0 && equals(*prevPat, *patterns)) &&
+                             prevMatchPat->getAlternative() == matchPat->getAlternative() &&
                              prevMatchPat->getTemplate()->getPriority() == matchPat->getTemplate()->getPriority()))
                         {
                             prevPat = patterns;
@@ -1296,7 +1305,11 @@ Stylesheet::findTemplate(
                             const XPath* const  xpath = matchPat->getExpression();
 
                             XPath::eMatchScore  score =
-                                        xpath->getMatchScore(targetNode, *this, executionContext);
+                                        xpath->getMatchScore(
+                                            targetNode,
+                                            *this,
+                                            executionContext,
+                                            matchPat->getAlternative());
 
                             if(XPath::eMatchScoreNone != score)
                             {
